@@ -203,133 +203,137 @@ Proof.
     unfold inwin in E1, E2. rewrite window_empty_right by lia. reflexivity.
 Qed.
 
-Lemma cwin_app : forall a b p lo hi,
-  cwin p lo hi (a ++ b) = cwin p lo hi a ++ cwin (p + wsum a) lo hi b.
-Proof.
-  induction a as [|x a IH]; intros b p lo hi; cbn [cwin app wsum].
-  - now replace (p + 0) with p by lia.
-  - rewrite IH, <- app_assoc. now replace (p + wc (fst x) + wsum a) with (p + (wc (fst x) + wsum a)) by lia.
-Qed.
-
-Lemma charwin_right p lo hi x : hi <= p -> charwin p lo hi x = [].
-Proof.
-  intro H. unfold charwin, inwin.
-  replace (p <? hi) with false by lia. replace (p + 1 <? hi) with false by lia.
-  rewrite !andb_false_r. now destruct (wc (fst x) =? 1), (wc (fst x) =? 2).
-Qed.
-
-Lemma cwin_right : forall cs p lo hi, str_ok (map fst cs) -> hi <= p -> cwin p lo hi cs = [].
-Proof.
-  induction cs as [|x cs IH]; intros p lo hi Hok H; [reflexivity|].
-  cbn [map] in Hok. apply str_ok_cons in Hok as [Hx Hok].
-  cbn [cwin]. rewrite charwin_right by assumption. rewrite IH; [reflexivity|assumption|].
-  destruct Hx as [Hw|[Hw|Hw]]; lia.
-Qed.
-
-Lemma cwin_left : forall cs p lo hi, str_ok (map fst cs) -> p + wsum cs <= lo -> cwin p lo hi cs = [].
-Proof.
-  induction cs as [|x cs IH]; intros p lo hi Hok H; [reflexivity|].
-  cbn [map] in Hok. apply str_ok_cons in Hok as [Hx Hok].
-  pose proof (wsum_nonneg cs Hok) as Hn.
-  cbn [cwin wsum] in *. rewrite IH by (assumption || lia). rewrite app_nil_r.
-  unfold charwin, inwin.
-  destruct Hx as [Hw|[Hw|Hw]]; rewrite Hw; cbn [Z.eqb Pos.eqb]; [reflexivity| |].
-  - replace (lo <=? p) with false by lia. reflexivity.
-  - replace (lo <=? p) with false by lia. replace (lo <=? p + 1) with false by lia. reflexivity.
-Qed.
-
-Lemma cwin_inside : forall cs p lo hi, str_ok (map fst cs) -> lo <= p -> p + wsum cs <= hi ->
-  cwin p lo hi cs = colcells_of wc cs.
-Proof.
-  induction cs as [|x cs IH]; intros p lo hi Hok Hlo Hhi; [reflexivity|].
-  cbn [map] in Hok. apply str_ok_cons in Hok as [Hx Hok].
-  pose proof (wsum_nonneg cs Hok) as Hn.
-  change (colcells_of wc (x :: cs)) with (expand wc x ++ colcells_of wc cs).
-  cbn [cwin wsum] in *. rewrite IH by (assumption || destruct Hx as [Hw|[Hw|Hw]]; lia).
-  f_equal. unfold charwin, expand, inwin.
-  destruct Hx as [Hw|[Hw|Hw]]; rewrite Hw; cbn [Z.eqb Pos.eqb]; [reflexivity| |].
-  - replace (lo <=? p) with true by lia. replace (p <? hi) with true by lia. reflexivity.
-  - replace (lo <=? p) with true by lia. replace (p <? hi) with true by lia.
-    replace (lo <=? p + 1) with true by lia. replace (p + 1 <? hi) with true by lia. reflexivity.
-Qed.
-
-Section Slice.
-Hypothesis Hsp : wc 32%N = 1.     (* the replacement character is one column wide *)
-
-Lemma colcells_spaces st n : colcells_of wc (withst st (repeat 32%N n)) = repeat (Full 32%N st) n.
-Proof.
-  induction n as [|n IH]; [reflexivity|].
-  cbn [repeat withst map]. fold (withst st (repeat 32%N n)).
-  change (colcells_of wc ((32%N, st) :: withst st (repeat 32%N n)))
-    with (expand wc (32%N, st) ++ colcells_of wc (withst st (repeat 32%N n))).
-  rewrite IH. unfold expand. cbn [fst snd]. rewrite Hsp. reflexivity.
-Qed.
-
-(* the body of the helper's loop for one character at local column p of a run
-   that starts at absolute column K, against the requested range [a, b) *)
-Lemma was_char_charwin c st K p a b :
-  w012 c -> 0 <= p ->
-  colcells_of wc (withst st (was_char c p (p + wc c) (Z.max 0 (a - K)) (b - K)))
-  = charwin (K + p) a b (c, st).
-Proof.
-  intros Hc Hp. unfold was_char, charwin, inwin, interval_overlap. cbn [fst snd].
-  destruct Hc as [Hw|[Hw|Hw]]; rewrite Hw; cbn [Z.eqb Pos.eqb].
-  - (* zero width: nothing in either column view *)
-    destruct ((p =? Z.max 0 (a - K)) && (p + 0 =? Z.max 0 (a - K))); [reflexivity|].
-    destruct ((p >=? Z.max 0 (a - K)) && (p + 0 <=? b - K)).
-    + cbn [withst map]. unfold colcells_of. cbn [flat_map]. unfold expand. cbn [fst]. now rewrite Hw.
-    + rewrite colcells_spaces.
-      replace (Z.to_nat (Z.max 0 (Z.min (p + 0) (b - K) - Z.max p (Z.max 0 (a - K))))) with 0%nat by lia.
-      reflexivity.
-  - (* one column *)
-    replace ((p =? Z.max 0 (a - K)) && (p + 1 =? Z.max 0 (a - K))) with false by lia.
-    destruct ((p >=? Z.max 0 (a - K)) && (p + 1 <=? b - K)) eqn:E.
-    + replace ((a <=? K + p) && (K + p <? b)) with true by lia.
-      cbn [withst map]. unfold colcells_of. cbn [flat_map]. unfold expand. cbn [fst snd]. now rewrite Hw.
-    + replace ((a <=? K + p) && (K + p <? b)) with false by lia.
-      rewrite colcells_spaces.
-      replace (Z.to_nat (Z.max 0 (Z.min (p + 1) (b - K) - Z.max p (Z.max 0 (a - K))))) with 0%nat by lia.
-      reflexivity.
-  - (* two columns *)
-    replace ((p =? Z.max 0 (a - K)) && (p + 2 =? Z.max 0 (a - K))) with false by lia.
-    destruct ((p >=? Z.max 0 (a - K)) && (p + 2 <=? b - K)) eqn:E.
-    + replace ((a <=? K + p) && (K + p <? b)) with true by lia.
-      replace ((a <=? K + p + 1) && (K + p + 1 <? b)) with true by lia.
-      cbn [withst map]. unfold colcells_of. cbn [flat_map]. unfold expand. cbn [fst snd]. now rewrite Hw.
-    + rewrite colcells_spaces.
-      destruct ((a <=? K + p) && (K + p <? b)) eqn:E1;
-      destruct ((a <=? K + p + 1) && (K + p + 1 <? b)) eqn:E2; try lia.
-      * replace (Z.to_nat (Z.max 0 (Z.min (p + 2) (b - K) - Z.max p (Z.max 0 (a - K))))) with 1%nat by lia.
-        reflexivity.
-      * replace (Z.to_nat (Z.max 0 (Z.min (p + 2) (b - K) - Z.max p (Z.max 0 (a - K))))) with 1%nat by lia.
-        reflexivity.
-      * replace (Z.to_nat (Z.max 0 (Z.min (p + 2) (b - K) - Z.max p (Z.max 0 (a - K))))) with 0%nat by lia.
-        reflexivity.
-Qed.
-
 Lemma withst_app st a b : withst st (a ++ b) = withst st a ++ withst st b.
 Proof. apply map_app. Qed.
 
-Lemma was_chars_cwin st K a b : forall s p, str_ok s -> 0 <= p ->
-  colcells_of wc (withst st (was_chars wc s p (Z.max 0 (a - K)) (b - K)))
-  = cwin (K + p) a b (withst st s).
+Lemma colcells_app f g : colcells wc (f ++ g) = colcells wc f ++ colcells wc g.
+Proof. unfold colcells, cells. now rewrite flat_map_app, colcells_of_app. Qed.
+
+Lemma cells_app f g : cells (f ++ g) = cells f ++ cells g.
+Proof. apply flat_map_app. Qed.
+
+Lemma str_ok_chunk_cells ch : str_ok (c_s ch) -> str_ok (map fst (chunk_cells ch)).
+Proof. rewrite chunk_cells_withst, map_fst_withst. auto. Qed.
+
+Lemma fs_ok_cells f : fs_ok f -> str_ok (map fst (cells f)).
+Proof. now rewrite map_fst_cells. Qed.
+
+(* -- the slice character by character (zero-width characters included): the
+      reference [slice_ref] of Spec/Columns.v ------------------------------------ *)
+Lemma positions_app : forall x y p,
+  positions wc p (x ++ y) = positions wc p x ++ positions wc (p + wsum x) y.
 Proof.
-  induction s as [|c s IH]; intros p Hok Hp; [reflexivity|].
+  induction x as [|c x IH]; intros y p; cbn [positions app wsum].
+  - now replace (p + 0) with p by lia.
+  - rewrite IH. now replace (p + wc (fst c) + wsum x) with (p + (wc (fst c) + wsum x)) by lia.
+Qed.
+
+Lemma slice_ref_from_app x y p a b :
+  slice_ref_from wc p a b (x ++ y) = slice_ref_from wc p a b x ++ slice_ref_from wc (p + wsum x) a b y.
+Proof. unfold slice_ref_from. now rewrite positions_app, flat_map_app. Qed.
+
+Lemma slice_ref_from_cons x cs p a b :
+  slice_ref_from wc p a b (x :: cs) = keep_char wc a b (p, x) ++ slice_ref_from wc (p + wc (fst x)) a b cs.
+Proof. reflexivity. Qed.
+
+(* the body of the helper's loop, for the character at local column p of a run that
+   starts at absolute column K, called with the unclamped offsets a - K, b - K, is
+   [keep_char] at the absolute column K + p *)
+Lemma was_char_keep c st K p a b :
+  w012 c ->
+  withst st (was_char c p (p + wc c) (a - K) (b - K)) = keep_char wc a b (K + p, (c, st)).
+Proof.
+  intros Hc. unfold was_char, keep_char, in_range, interval_overlap. cbn [fst snd].
+  destruct Hc as [Hw|[Hw|Hw]]; rewrite Hw; cbn [Z.eqb Pos.eqb andb].
+  - (* zero width *)
+    destruct ((p =? a - K) && (p + 0 =? a - K)) eqn:E1.
+    + replace ((a <? K + p) && (K + p <=? b)) with false by lia. reflexivity.
+    + destruct ((p >=? a - K) && (p + 0 <=? b - K)) eqn:E2.
+      * replace ((a <? K + p) && (K + p <=? b)) with true by lia. reflexivity.
+      * replace ((a <? K + p) && (K + p <=? b)) with false by lia.
+        replace (Z.to_nat (Z.max 0 (Z.min (p + 0) (b - K) - Z.max p (a - K)))) with 0%nat by lia.
+        reflexivity.
+  - (* one column *)
+    replace ((p =? a - K) && (p + 1 =? a - K)) with false by lia.
+    destruct ((p >=? a - K) && (p + 1 <=? b - K)) eqn:E.
+    + replace ((a <=? K + p) && (K + p + 1 <=? b)) with true by lia. reflexivity.
+    + replace ((a <=? K + p) && (K + p + 1 <=? b)) with false by lia.
+      replace (Z.to_nat (Z.max 0 (Z.min (p + 1) (b - K) - Z.max p (a - K)))) with 0%nat by lia.
+      reflexivity.
+  - (* two columns *)
+    replace ((p =? a - K) && (p + 2 =? a - K)) with false by lia.
+    destruct ((p >=? a - K) && (p + 2 <=? b - K)) eqn:E.
+    + replace ((a <=? K + p) && (K + p + 2 <=? b)) with true by lia. reflexivity.
+    + replace ((a <=? K + p) && (K + p + 2 <=? b)) with false by lia.
+      destruct (xorb ((a <=? K + p) && (K + p <? b)) ((a <=? K + p + 1) && (K + p + 1 <? b))) eqn:E2.
+      * replace (Z.to_nat (Z.max 0 (Z.min (p + 2) (b - K) - Z.max p (a - K)))) with 1%nat
+          by (destruct ((a <=? K + p) && (K + p <? b)) eqn:E3;
+              destruct ((a <=? K + p + 1) && (K + p + 1 <? b)) eqn:E4; cbn [xorb] in E2; lia).
+        reflexivity.
+      * replace (Z.to_nat (Z.max 0 (Z.min (p + 2) (b - K) - Z.max p (a - K)))) with 0%nat
+          by (destruct ((a <=? K + p) && (K + p <? b)) eqn:E3;
+              destruct ((a <=? K + p + 1) && (K + p + 1 <? b)) eqn:E4; cbn [xorb] in E2; lia).
+        reflexivity.
+Qed.
+
+Lemma was_chars_keep st K a b : forall s p, str_ok s ->
+  withst st (was_chars wc s p (a - K) (b - K)) = slice_ref_from wc (K + p) a b (withst st s).
+Proof.
+  induction s as [|c s IH]; intros p Hok; [reflexivity|].
   apply str_ok_cons in Hok as [Hc Hok].
   change (withst st (c :: s)) with ((c, st) :: withst st s).
-  cbn [was_chars cwin fst].
-  rewrite withst_app, colcells_of_app, was_char_charwin by assumption.
-  rewrite IH by (assumption || destruct Hc as [Hw|[Hw|Hw]]; lia).
-  now rewrite Z.add_assoc.
+  rewrite slice_ref_from_cons. cbn [was_chars fst].
+  rewrite withst_app, was_char_keep by assumption.
+  rewrite IH by assumption. now rewrite Z.add_assoc.
+Qed.
+
+(* [keep_char] on stretches lying wholly left / wholly right of the range *)
+Lemma slice_ref_left a b : forall cs p, str_ok (map fst cs) -> p + wsum cs <= a ->
+  slice_ref_from wc p a b cs = [].
+Proof.
+  induction cs as [|x cs IH]; intros p Hok H; [reflexivity|].
+  cbn [map] in Hok. apply str_ok_cons in Hok as [Hx Hok].
+  pose proof (wsum_nonneg cs Hok) as Hn. cbn [wsum] in H.
+  rewrite slice_ref_from_cons, IH by (assumption || lia). rewrite app_nil_r.
+  unfold keep_char, in_range. cbn [fst snd].
+  destruct Hx as [Hw|[Hw|Hw]]; rewrite Hw; cbn [Z.eqb Pos.eqb andb].
+  - replace ((a <? p) && (p <=? b)) with false by lia. reflexivity.
+  - replace ((a <=? p) && (p + 1 <=? b)) with false by lia. reflexivity.
+  - replace ((a <=? p) && (p + 2 <=? b)) with false by lia.
+    replace ((a <=? p) && (p <? b)) with false by lia.
+    replace ((a <=? p + 1) && (p + 1 <? b)) with false by lia. reflexivity.
+Qed.
+
+Lemma slice_ref_right a b : forall cs p, str_ok (map fst cs) -> b < p ->
+  slice_ref_from wc p a b cs = [].
+Proof.
+  induction cs as [|x cs IH]; intros p Hok H; [reflexivity|].
+  cbn [map] in Hok. apply str_ok_cons in Hok as [Hx Hok].
+  rewrite slice_ref_from_cons, IH by (assumption || destruct Hx as [Hw|[Hw|Hw]]; lia). rewrite app_nil_r.
+  unfold keep_char, in_range. cbn [fst snd].
+  destruct Hx as [Hw|[Hw|Hw]]; rewrite Hw; cbn [Z.eqb Pos.eqb andb].
+  - replace ((a <? p) && (p <=? b)) with false by lia. reflexivity.
+  - replace ((a <=? p) && (p + 1 <=? b)) with false by lia. reflexivity.
+  - replace ((a <=? p) && (p + 2 <=? b)) with false by lia.
+    replace ((a <=? p) && (p <? b)) with false by lia.
+    replace ((a <=? p + 1) && (p + 1 <? b)) with false by lia. reflexivity.
+Qed.
+
+Lemma str_eqb_true : forall a b : str, str_eqb a b = true -> a = b.
+Proof.
+  unfold str_eqb. induction a as [|x a IH]; intros [|y b] H; cbn [list_eqb] in H; try discriminate; [reflexivity|].
+  apply andb_prop in H as [H1 H2]. apply N.eqb_eq in H1. subst y. f_equal. now apply IH.
 Qed.
 
 (* one iteration of the run walk *)
 Definition walk_part (ch : chunk) (start stop counter w : Z) : list chunk :=
-  if (start <? counter + w) && (stop >? counter) then
-    let s := Z.max 0 (start - counter) in
-    let e := Z.min (stop - counter) w in
-    if e - s =? w then [ch]
-    else [mkChunk (was_str wc (c_s ch) (Z.max 0 (start - counter)) (stop - counter)) (c_a ch)]
+  if (start <? counter + w) && (stop >=? counter) then
+    let s_part := was_str wc (c_s ch) (start - counter) (stop - counter) in
+    if str_eqb s_part (c_s ch) then [ch]
+    else match s_part with
+         | [] => []
+         | _ => [mkChunk s_part (c_a ch)]
+         end
   else [].
 
 Lemma was_walk_cons ch rest start stop counter :
@@ -340,62 +344,57 @@ Lemma was_walk_cons ch rest start stop counter :
     else bind (was_walk wc rest start stop (counter + w)) (fun ps => Ok (part ++ ps))).
 Proof. reflexivity. Qed.
 
-Lemma colcells_app f g : colcells wc (f ++ g) = colcells wc f ++ colcells wc g.
-Proof. unfold colcells, cells. now rewrite flat_map_app, colcells_of_app. Qed.
-
-Lemma str_ok_chunk_cells ch : str_ok (c_s ch) -> str_ok (map fst (chunk_cells ch)).
-Proof. rewrite chunk_cells_withst, map_fst_withst. auto. Qed.
-
-Lemma walk_part_cwin ch a b K :
-  str_ok (c_s ch) ->
-  colcells wc (walk_part ch a b K (wsum (chunk_cells ch))) = cwin K a b (chunk_cells ch).
+(* whichever of the three branches is taken (run object reused, new run, nothing),
+   the cells contributed are those of the helper's string in the run's state *)
+Lemma walk_part_cells ch a b K w :
+  cells (walk_part ch a b K w) =
+  if (a <? K + w) && (b >=? K) then withst (eff (c_a ch)) (was_str wc (c_s ch) (a - K) (b - K)) else [].
 Proof.
-  intro Hok. pose proof (str_ok_chunk_cells ch Hok) as Hok'.
-  unfold walk_part. set (w := wsum (chunk_cells ch)).
-  destruct ((a <? K + w) && (b >? K)) eqn:E.
-  - cbv zeta. destruct (Z.min (b - K) w - Z.max 0 (a - K) =? w) eqn:E2.
-    + (* the whole run lies inside the range: reused as it is *)
-      unfold colcells. cbn [cells flat_map]. rewrite app_nil_r.
-      symmetry. apply cwin_inside; [assumption|lia|fold w; lia].
-    + (* cut by the helper *)
-      unfold colcells. cbn [cells flat_map]. rewrite app_nil_r.
-      unfold chunk_cells at 1. cbn [c_s c_a]. fold (withst (eff (c_a ch)) (was_str wc (c_s ch) (Z.max 0 (a - K)) (b - K))).
-      unfold was_str. rewrite was_chars_cwin by (assumption || lia).
-      now rewrite Z.add_0_r.
-  - (* no overlap *)
-    cbn. symmetry.
-    destruct (a <? K + w) eqn:E1.
-    + apply cwin_right; [assumption|lia].
-    + apply cwin_left; [assumption|fold w; lia].
+  unfold walk_part. destruct ((a <? K + w) && (b >=? K)); [|reflexivity]. cbv zeta.
+  destruct (str_eqb (was_str wc (c_s ch) (a - K) (b - K)) (c_s ch)) eqn:E.
+  - apply str_eqb_true in E. rewrite E. cbn [cells flat_map]. now rewrite app_nil_r.
+  - destruct (was_str wc (c_s ch) (a - K) (b - K)) as [|c s]; [reflexivity|].
+    cbn [cells flat_map]. now rewrite app_nil_r.
 Qed.
 
-Lemma fs_ok_cells f : fs_ok f -> str_ok (map fst (cells f)).
-Proof. now rewrite map_fst_cells. Qed.
+Lemma walk_part_exact ch a b K :
+  str_ok (c_s ch) ->
+  cells (walk_part ch a b K (wsum (chunk_cells ch))) = slice_ref_from wc K a b (chunk_cells ch).
+Proof.
+  intro Hok. pose proof (str_ok_chunk_cells ch Hok) as Hok'.
+  rewrite walk_part_cells.
+  destruct ((a <? K + wsum (chunk_cells ch)) && (b >=? K)) eqn:E.
+  - unfold was_str. rewrite was_chars_keep by assumption. now rewrite Z.add_0_r.
+  - symmetry. destruct (a <? K + wsum (chunk_cells ch)) eqn:E1.
+    + apply slice_ref_right; [assumption|lia].
+    + apply slice_ref_left; [assumption|lia].
+Qed.
 
-Lemma was_walk_cwin a b : forall f K, fs_ok f ->
-  exists parts, was_walk wc f a b K = Ok parts /\ colcells wc parts = cwin K a b (cells f).
+Lemma was_walk_exact a b : forall f K, fs_ok f ->
+  exists parts, was_walk wc f a b K = Ok parts /\ cells parts = slice_ref_from wc K a b (cells f).
 Proof.
   induction f as [|ch f IH]; intros K Hok.
   - exists []. split; reflexivity.
   - apply fs_ok_cons in Hok as [Hc Hok].
     rewrite was_walk_cons, chunk_width_ok by assumption. cbn [bind]. cbv zeta.
-    rewrite cells_cons, cwin_app.
+    rewrite cells_cons, slice_ref_from_app.
     destruct (b <? K + wsum (chunk_cells ch)) eqn:E.
-    + (* break *)
+    + (* break: nothing of the remaining runs belongs to the range *)
       eexists. split; [reflexivity|].
-      rewrite walk_part_cwin by assumption.
-      rewrite (cwin_right (cells f)); [now rewrite app_nil_r|now apply fs_ok_cells|lia].
-    + destruct (IH (K + wsum (chunk_cells ch)) Hok) as [ps [Hps Hcol]].
+      rewrite walk_part_exact by assumption.
+      rewrite (slice_ref_right a b (cells f)); [now rewrite app_nil_r|now apply fs_ok_cells|lia].
+    + destruct (IH (K + wsum (chunk_cells ch)) Hok) as [ps [Hps Hcells]].
       rewrite Hps. cbn [bind]. eexists. split; [reflexivity|].
-      now rewrite colcells_app, walk_part_cwin, Hcol.
+      now rewrite cells_app, walk_part_exact, Hcells.
 Qed.
 
-(* main statement: the column cells of the slice are the requested columns of f,
-   an orphaned half of a wide character shown as a space in its state *)
-Theorem slice_is_columns f a b :
+(* MAIN STATEMENT, character by character: for every run layout the cells of the
+   slice - zero-width characters and formatting included - are the reference
+   [slice_ref] applied to the cells of f *)
+Theorem slice_cells f a b :
   fs_ok f -> 0 <= a -> 0 <= b ->
   exists r, fs_was wc f (IxSlice (Some a) (Some b)) = Ok r /\
-            colcells wc r = col_slice a b (colcells wc f).
+            cells r = slice_ref wc a b (cells f).
 Proof.
   intros Hok Ha Hb. unfold fs_was.
   pose proof (fs_ok_cells f Hok) as Hok'.
@@ -404,16 +403,60 @@ Proof.
   destruct (wsum (cells f) =? -1) eqn:E; [lia|].
   rewrite fs_width_wsum by assumption. cbn [bind ws_normalize_slice].
   replace (a <? 0) with false by lia. replace (b <? 0) with false by lia. cbn [fst snd].
-  destruct (was_walk_cwin a b f 0 Hok) as [parts [Hw Hcol]].
-  rewrite Hw. cbn [bind].
-  assert (Hspec : cwin 0 a b (cells f) = col_slice a b (colcells wc f)).
-  { rewrite cwin_cut by assumption. unfold col_slice, colcells. rewrite window_firstn_skipn.
-    replace (Z.max a 0) with a by lia. now rewrite Z.sub_0_r. }
+  destruct (was_walk_exact a b f 0 Hok) as [parts [Hw Hcells]].
+  rewrite Hw. cbn [bind]. unfold slice_ref.
   destruct parts as [|p ps].
-  - eexists. split; [reflexivity|]. rewrite <- Hspec, <- Hcol. reflexivity.
-  - eexists. split; [reflexivity|]. now rewrite Hcol.
+  - eexists. split; [reflexivity|]. rewrite <- Hcells. reflexivity.
+  - eexists. split; [reflexivity|]. exact Hcells.
 Qed.
 
+Section Slice.
+Hypothesis Hsp : wc 32%N = 1.     (* the replacement character is one column wide *)
+
+(* -- the column view of the reference: what each requested column shows --------- *)
+Lemma colcells_keep_char a b p x :
+  w012 (fst x) -> colcells_of wc (keep_char wc a b (p, x)) = charwin p a b x.
+Proof.
+  intro Hx. unfold keep_char, charwin, in_range, inwin, colcells_of. cbn [fst snd].
+  destruct Hx as [Hw|[Hw|Hw]]; rewrite Hw; cbn [Z.eqb Pos.eqb andb].
+  - destruct ((a <? p) && (p <=? b)); [|reflexivity].
+    cbn [flat_map]. unfold expand. rewrite Hw. reflexivity.
+  - destruct ((a <=? p) && (p + 1 <=? b)) eqn:E.
+    + replace ((a <=? p) && (p <? b)) with true by lia.
+      cbn [flat_map]. unfold expand. rewrite Hw. reflexivity.
+    + replace ((a <=? p) && (p <? b)) with false by lia. reflexivity.
+  - destruct ((a <=? p) && (p + 2 <=? b)) eqn:E.
+    + replace ((a <=? p) && (p <? b)) with true by lia.
+      replace ((a <=? p + 1) && (p + 1 <? b)) with true by lia.
+      cbn [flat_map]. unfold expand. rewrite Hw. reflexivity.
+    + destruct ((a <=? p) && (p <? b)) eqn:E1; destruct ((a <=? p + 1) && (p + 1 <? b)) eqn:E2;
+        cbn [xorb flat_map]; try reflexivity; try lia;
+        unfold expand; cbn [fst snd]; rewrite Hsp; reflexivity.
+Qed.
+
+Lemma colcells_slice_ref a b : forall cs p, str_ok (map fst cs) ->
+  colcells_of wc (slice_ref_from wc p a b cs) = cwin p a b cs.
+Proof.
+  induction cs as [|x cs IH]; intros p Hok; [reflexivity|].
+  cbn [map] in Hok. apply str_ok_cons in Hok as [Hx Hok].
+  rewrite slice_ref_from_cons, colcells_of_app, colcells_keep_char by assumption.
+  cbn [cwin]. now rewrite IH.
+Qed.
+
+(* the column cells of the slice are the requested columns of f, an orphaned half
+   of a wide character shown as a space in its state *)
+Theorem slice_is_columns f a b :
+  fs_ok f -> 0 <= a -> 0 <= b ->
+  exists r, fs_was wc f (IxSlice (Some a) (Some b)) = Ok r /\
+            colcells wc r = col_slice a b (colcells wc f).
+Proof.
+  intros Hok Ha Hb. destruct (slice_cells f a b Hok Ha Hb) as [r [Hr Hc]].
+  pose proof (fs_ok_cells f Hok) as Hok'.
+  exists r. split; [assumption|]. unfold colcells at 1. rewrite Hc. unfold slice_ref.
+  rewrite colcells_slice_ref, cwin_cut by assumption.
+  unfold col_slice, colcells. rewrite window_firstn_skipn.
+  replace (Z.max a 0) with a by lia. now rewrite Z.sub_0_r.
+Qed.
 
 (* hence: the result is as wide as the number of requested columns that exist *)
 Lemma cut_length : forall l, length (cut l) = length l.
@@ -435,8 +478,53 @@ Proof.
   rewrite cut_length, firstn_length, skipn_length. lia.
 Qed.
 
+(* -- zero-width characters ---------------------------------------------------------- *)
+Lemma zw_cells_app a b : zw_cells wc (a ++ b) = zw_cells wc a ++ zw_cells wc b.
+Proof. apply filter_app. Qed.
+
+(* the zero-width characters of the reference slice: exactly those of the line whose
+   column s satisfies a < s <= b (a replacement space is not one of them) *)
+Lemma marks_from_cons x cs p a b :
+  marks_in_range_from wc p a b (x :: cs) =
+  (if mark_in_range wc a b (p, x) then [x] else []) ++ marks_in_range_from wc (p + wc (fst x)) a b cs.
+Proof.
+  unfold marks_in_range_from. cbn [positions filter].
+  now destruct (mark_in_range wc a b (p, x)).
+Qed.
+
+Lemma zw_slice_ref a b : forall cs p, str_ok (map fst cs) ->
+  zw_cells wc (slice_ref_from wc p a b cs) = marks_in_range_from wc p a b cs.
+Proof.
+  induction cs as [|x cs IH]; intros p Hok; [reflexivity|].
+  cbn [map] in Hok. apply str_ok_cons in Hok as [Hx Hok].
+  rewrite slice_ref_from_cons, zw_cells_app, marks_from_cons, IH by assumption. f_equal.
+  unfold keep_char, mark_in_range, zero_width, zw_cells. cbn [fst snd].
+  destruct Hx as [Hw|[Hw|Hw]]; rewrite Hw; cbn [Z.eqb Pos.eqb andb].
+  - destruct ((a <? p) && (p <=? b)); [|reflexivity].
+    cbn [filter]. unfold zero_width. rewrite Hw. reflexivity.
+  - destruct ((a <=? p) && (p + 1 <=? b)); [|reflexivity].
+    cbn [filter]. unfold zero_width. rewrite Hw. reflexivity.
+  - destruct ((a <=? p) && (p + 2 <=? b)).
+    + cbn [filter]. unfold zero_width. rewrite Hw. reflexivity.
+    + destruct (xorb (in_range a b p) (in_range a b (p + 1))); [|reflexivity].
+      cbn [filter]. unfold zero_width. cbn [fst]. rewrite Hsp. reflexivity.
+Qed.
+
+(* every zero-width character whose column s satisfies a < s <= b is in the slice
+   with its own formatting, in order - and the slice has no other zero-width
+   character (none at column a, none beyond b, none invented) *)
+Theorem slice_marks f a b :
+  fs_ok f -> 0 <= a -> 0 <= b ->
+  exists r, fs_was wc f (IxSlice (Some a) (Some b)) = Ok r /\
+            zw_cells wc (cells r) = marks_in_range wc a b (cells f).
+Proof.
+  intros Hok Ha Hb. destruct (slice_cells f a b Hok Ha Hb) as [r [Hr Hc]].
+  exists r. split; [assumption|]. rewrite Hc. apply zw_slice_ref. now apply fs_ok_cells.
+Qed.
+
 (* zero-width characters of the result: a sub-sequence of the original's, for
-   every index form (none is invented, their order is kept) *)
+   every index form and whatever the widths of the characters (none is invented,
+   their order is kept) *)
 Lemma subseq_nil_l {A} : forall l : list A, subseq [] l.
 Proof. induction l; constructor; auto. Qed.
 
@@ -451,9 +539,6 @@ Proof.
   - now apply sub_skip.
   - now apply sub_take.
 Qed.
-
-Lemma zw_cells_app a b : zw_cells wc (a ++ b) = zw_cells wc a ++ zw_cells wc b.
-Proof. apply filter_app. Qed.
 
 Lemma zw_spaces st n : zw_cells wc (withst st (repeat 32%N n)) = [].
 Proof.
@@ -479,17 +564,12 @@ Proof.
   apply subseq_app; [apply zw_was_char|apply IH].
 Qed.
 
-Lemma cells_app f g : cells (f ++ g) = cells f ++ cells g.
-Proof. apply flat_map_app. Qed.
-
 Lemma zw_walk_part ch a b K w :
   subseq (zw_cells wc (cells (walk_part ch a b K w))) (zw_cells wc (chunk_cells ch)).
 Proof.
-  unfold walk_part.
-  destruct ((a <? K + w) && (b >? K)); [|apply subseq_nil_l].
-  cbv zeta. destruct (_ =? w).
-  - cbn [cells flat_map]. rewrite app_nil_r. apply subseq_refl.
-  - cbn [cells flat_map]. rewrite app_nil_r. apply zw_was_chars.
+  rewrite walk_part_cells.
+  destruct ((a <? K + w) && (b >=? K)); [|apply subseq_nil_l].
+  rewrite chunk_cells_withst. apply zw_was_chars.
 Qed.
 
 Lemma zw_was_walk a b : forall f K parts,
@@ -525,457 +605,18 @@ End Slice.
 
 End WidthProofs.
 
-(* ---- C10, fourth part: the slice character by character (zero-width included) ---- *)
-Section SliceCells.
-Variable wc : char -> Z.
-
-Lemma width_of_wsum cs : width_of wc cs = wsum wc cs.
-Proof. induction cs as [|x cs IH]; cbn [width_of wsum]; [reflexivity|now rewrite IH]. Qed.
-
-Lemma positions_app : forall x y p,
-  positions wc p (x ++ y) = positions wc p x ++ positions wc (p + wsum wc x) y.
-Proof.
-  induction x as [|c x IH]; intros y p; cbn [positions app wsum].
-  - now replace (p + 0) with p by lia.
-  - rewrite IH. now replace (p + wc (fst c) + wsum wc x) with (p + (wc (fst c) + wsum wc x)) by lia.
-Qed.
-
-Lemma slice_ref_from_app x y p a b :
-  slice_ref_from wc p a b (x ++ y) = slice_ref_from wc p a b x ++ slice_ref_from wc (p + wsum wc x) a b y.
-Proof. unfold slice_ref_from. now rewrite positions_app, flat_map_app. Qed.
-
-Lemma slice_ref_from_cons x cs p a b :
-  slice_ref_from wc p a b (x :: cs) = keep_char wc a b (p, x) ++ slice_ref_from wc (p + wc (fst x)) a b cs.
-Proof. reflexivity. Qed.
-
-(* the body of the helper's loop is [keep_char], except for a zero-width character
-   at local column 0 *)
-Lemma was_char_keep c st K p a b :
-  w012 wc c -> 0 <= p -> (0 < p \/ wc c <> 0) ->
-  withst st (was_char c p (p + wc c) (Z.max 0 (a - K)) (b - K)) = keep_char wc a b (K + p, (c, st)).
-Proof.
-  intros Hc Hp Hnl. unfold was_char, keep_char, in_range, interval_overlap. cbn [fst snd].
-  destruct Hc as [Hw|[Hw|Hw]]; rewrite Hw; cbn [Z.eqb Pos.eqb andb].
-  - (* zero width, not at local column 0 *)
-    destruct Hnl as [Hnl|Hnl]; [|lia].
-    destruct ((p =? Z.max 0 (a - K)) && (p + 0 =? Z.max 0 (a - K))) eqn:E1.
-    + replace ((a <? K + p) && (K + p <=? b)) with false by lia. reflexivity.
-    + destruct ((p >=? Z.max 0 (a - K)) && (p + 0 <=? b - K)) eqn:E2.
-      * replace ((a <? K + p) && (K + p <=? b)) with true by lia. reflexivity.
-      * replace ((a <? K + p) && (K + p <=? b)) with false by lia.
-        replace (Z.to_nat (Z.max 0 (Z.min (p + 0) (b - K) - Z.max p (Z.max 0 (a - K))))) with 0%nat by lia.
-        reflexivity.
-  - (* one column *)
-    replace ((p =? Z.max 0 (a - K)) && (p + 1 =? Z.max 0 (a - K))) with false by lia.
-    destruct ((p >=? Z.max 0 (a - K)) && (p + 1 <=? b - K)) eqn:E.
-    + replace ((a <=? K + p) && (K + p + 1 <=? b)) with true by lia. reflexivity.
-    + replace ((a <=? K + p) && (K + p + 1 <=? b)) with false by lia.
-      replace (Z.to_nat (Z.max 0 (Z.min (p + 1) (b - K) - Z.max p (Z.max 0 (a - K))))) with 0%nat by lia.
-      reflexivity.
-  - (* two columns *)
-    replace ((p =? Z.max 0 (a - K)) && (p + 2 =? Z.max 0 (a - K))) with false by lia.
-    destruct ((p >=? Z.max 0 (a - K)) && (p + 2 <=? b - K)) eqn:E.
-    + replace ((a <=? K + p) && (K + p + 2 <=? b)) with true by lia. reflexivity.
-    + replace ((a <=? K + p) && (K + p + 2 <=? b)) with false by lia.
-      destruct (xorb ((a <=? K + p) && (K + p <? b)) ((a <=? K + p + 1) && (K + p + 1 <? b))) eqn:E2.
-      * replace (Z.to_nat (Z.max 0 (Z.min (p + 2) (b - K) - Z.max p (Z.max 0 (a - K))))) with 1%nat
-          by (destruct ((a <=? K + p) && (K + p <? b)) eqn:E3;
-              destruct ((a <=? K + p + 1) && (K + p + 1 <? b)) eqn:E4; cbn [xorb] in E2; lia).
-        reflexivity.
-      * replace (Z.to_nat (Z.max 0 (Z.min (p + 2) (b - K) - Z.max p (Z.max 0 (a - K))))) with 0%nat
-          by (destruct ((a <=? K + p) && (K + p <? b)) eqn:E3;
-              destruct ((a <=? K + p + 1) && (K + p + 1 <? b)) eqn:E4; cbn [xorb] in E2; lia).
-        reflexivity.
-Qed.
-
-(* a zero-width character at local column 0 of a run cut by the helper is dropped,
-   wherever the run stands *)
-Lemma was_char_lead c lo hi : wc c = 0 -> 0 <= lo -> was_char c 0 (0 + wc c) lo hi = [].
-Proof.
-  intros Hw Hlo. unfold was_char, interval_overlap. rewrite Hw.
-  destruct ((0 =? lo) && (0 + 0 =? lo)) eqn:E1; [reflexivity|].
-  destruct ((0 >=? lo) && (0 + 0 <=? hi)) eqn:E2; [lia|].
-  replace (Z.to_nat (Z.max 0 (Z.min (0 + 0) hi - Z.max 0 lo))) with 0%nat by lia. reflexivity.
-Qed.
-
-Lemma was_chars_keep st K a b : forall s p, str_ok wc s -> 0 < p ->
-  withst st (was_chars wc s p (Z.max 0 (a - K)) (b - K)) = slice_ref_from wc (K + p) a b (withst st s).
-Proof.
-  induction s as [|c s IH]; intros p Hok Hp; [reflexivity|].
-  apply str_ok_cons in Hok as [Hc Hok].
-  change (withst st (c :: s)) with ((c, st) :: withst st s).
-  rewrite slice_ref_from_cons. cbn [was_chars fst].
-  rewrite withst_app, was_char_keep by (assumption || lia).
-  rewrite IH by (assumption || destruct Hc as [Hw|[Hw|Hw]]; lia).
-  now rewrite Z.add_assoc.
-Qed.
-
-Lemma span_marks_withst st : forall s,
-  span_marks wc (withst st s) =
-  match s with
-  | [] => ([], [])
-  | c :: r => if wc c =? 0 then ((c, st) :: fst (span_marks wc (withst st r)), snd (span_marks wc (withst st r)))
-              else ([], withst st (c :: r))
-  end.
-Proof. intros [|c r]; reflexivity. Qed.
-
-(* the helper applied to a whole run: the leading marks go, the rest is [keep_char] *)
-Lemma was_chars_body st K a b : forall s, str_ok wc s ->
-  withst st (was_chars wc s 0 (Z.max 0 (a - K)) (b - K))
-  = slice_ref_from wc K a b (snd (span_marks wc (withst st s))).
-Proof.
-  induction s as [|c s IH]; intro Hok; [reflexivity|].
-  apply str_ok_cons in Hok as [Hc Hok].
-  rewrite span_marks_withst. cbn [was_chars].
-  destruct (wc c =? 0) eqn:E.
-  - cbn [snd]. rewrite was_char_lead by lia. cbn [app].
-    replace (0 + wc c) with 0 by lia. now apply IH.
-  - cbn [snd]. change (withst st (c :: s)) with ((c, st) :: withst st s).
-    rewrite slice_ref_from_cons. cbn [fst].
-    rewrite withst_app, was_char_keep by (assumption || lia).
-    replace (K + 0) with K by lia. f_equal.
-    rewrite was_chars_keep by (assumption || destruct Hc as [Hw|[Hw|Hw]]; lia).
-    now replace (K + (0 + wc c)) with (K + wc c) by lia.
-Qed.
-
-(* facts about the split of a run into leading marks and body *)
-Lemma span_marks_app cs : fst (span_marks wc cs) ++ snd (span_marks wc cs) = cs.
-Proof.
-  induction cs as [|x cs IH]; [reflexivity|]. cbn [span_marks].
-  destruct (zero_width wc x); cbn [fst snd app]; [now rewrite IH|reflexivity].
-Qed.
-
-Lemma span_marks_lead_width cs : wsum wc (fst (span_marks wc cs)) = 0.
-Proof.
-  induction cs as [|x cs IH]; [reflexivity|]. cbn [span_marks].
-  destruct (zero_width wc x) eqn:E; cbn [fst wsum]; [|reflexivity].
-  unfold zero_width in E. lia.
-Qed.
-
-Lemma span_marks_body cs :
-  snd (span_marks wc cs) = [] \/
-  exists x r, snd (span_marks wc cs) = x :: r /\ zero_width wc x = false.
-Proof.
-  induction cs as [|x cs IH]; [now left|]. cbn [span_marks].
-  destruct (zero_width wc x) eqn:E; cbn [snd]; [exact IH|].
-  right. now exists x, cs.
-Qed.
-
-Lemma span_marks_width cs : wsum wc (snd (span_marks wc cs)) = wsum wc cs.
-Proof.
-  rewrite <- (span_marks_app cs) at 2. rewrite wsum_app, span_marks_lead_width. lia.
-Qed.
-
-Lemma str_ok_body cs : str_ok wc (map fst cs) -> str_ok wc (map fst (snd (span_marks wc cs))).
-Proof.
-  intro H. rewrite <- (span_marks_app cs), map_app in H. now apply str_ok_app in H.
-Qed.
-
-(* [keep_char] on stretches lying on one side of, or inside, the range *)
-Lemma slice_ref_left a b : forall cs p, str_ok wc (map fst cs) -> p + wsum wc cs <= a ->
-  slice_ref_from wc p a b cs = [].
-Proof.
-  induction cs as [|x cs IH]; intros p Hok H; [reflexivity|].
-  cbn [map] in Hok. apply str_ok_cons in Hok as [Hx Hok].
-  pose proof (wsum_nonneg wc cs Hok) as Hn. cbn [wsum] in H.
-  rewrite slice_ref_from_cons, IH by (assumption || lia). rewrite app_nil_r.
-  unfold keep_char, in_range. cbn [fst snd].
-  destruct Hx as [Hw|[Hw|Hw]]; rewrite Hw; cbn [Z.eqb Pos.eqb andb].
-  - replace ((a <? p) && (p <=? b)) with false by lia. reflexivity.
-  - replace ((a <=? p) && (p + 1 <=? b)) with false by lia. reflexivity.
-  - replace ((a <=? p) && (p + 2 <=? b)) with false by lia.
-    replace ((a <=? p) && (p <? b)) with false by lia.
-    replace ((a <=? p + 1) && (p + 1 <? b)) with false by lia. reflexivity.
-Qed.
-
-Lemma slice_ref_right_strict a b : forall cs p, str_ok wc (map fst cs) -> b < p ->
-  slice_ref_from wc p a b cs = [].
-Proof.
-  induction cs as [|x cs IH]; intros p Hok H; [reflexivity|].
-  cbn [map] in Hok. apply str_ok_cons in Hok as [Hx Hok].
-  rewrite slice_ref_from_cons, IH by (assumption || destruct Hx as [Hw|[Hw|Hw]]; lia). rewrite app_nil_r.
-  unfold keep_char, in_range. cbn [fst snd].
-  destruct Hx as [Hw|[Hw|Hw]]; rewrite Hw; cbn [Z.eqb Pos.eqb andb].
-  - replace ((a <? p) && (p <=? b)) with false by lia. reflexivity.
-  - replace ((a <=? p) && (p + 1 <=? b)) with false by lia. reflexivity.
-  - replace ((a <=? p) && (p + 2 <=? b)) with false by lia.
-    replace ((a <=? p) && (p <? b)) with false by lia.
-    replace ((a <=? p + 1) && (p + 1 <? b)) with false by lia. reflexivity.
-Qed.
-
-(* ... a stretch that begins with a character of positive width at or right of b *)
-Lemma slice_ref_right a b x cs p : str_ok wc (map fst (x :: cs)) -> zero_width wc x = false -> b <= p ->
-  slice_ref_from wc p a b (x :: cs) = [].
-Proof.
-  intros Hok Hx H. cbn [map] in Hok. apply str_ok_cons in Hok as [Hx' Hok].
-  unfold zero_width in Hx.
-  rewrite slice_ref_from_cons, slice_ref_right_strict by (assumption || destruct Hx' as [Hw|[Hw|Hw]]; lia).
-  rewrite app_nil_r. unfold keep_char, in_range. cbn [fst snd].
-  destruct Hx' as [Hw|[Hw|Hw]]; rewrite Hw; cbn [Z.eqb Pos.eqb andb]; [lia| |].
-  - replace ((a <=? p) && (p + 1 <=? b)) with false by lia. reflexivity.
-  - replace ((a <=? p) && (p + 2 <=? b)) with false by lia.
-    replace ((a <=? p) && (p <? b)) with false by lia.
-    replace ((a <=? p + 1) && (p + 1 <? b)) with false by lia. reflexivity.
-Qed.
-
-Lemma slice_ref_inside_strict a b : forall cs p, str_ok wc (map fst cs) -> a < p -> p + wsum wc cs <= b ->
-  slice_ref_from wc p a b cs = cs.
-Proof.
-  induction cs as [|x cs IH]; intros p Hok Hlo Hhi; [reflexivity|].
-  cbn [map] in Hok. apply str_ok_cons in Hok as [Hx Hok].
-  pose proof (wsum_nonneg wc cs Hok) as Hn. cbn [wsum] in Hhi.
-  rewrite slice_ref_from_cons, IH by (assumption || destruct Hx as [Hw|[Hw|Hw]]; lia).
-  unfold keep_char. cbn [fst snd].
-  destruct Hx as [Hw|[Hw|Hw]]; rewrite Hw; cbn [Z.eqb Pos.eqb andb].
-  - replace ((a <? p) && (p <=? b)) with true by lia. reflexivity.
-  - replace ((a <=? p) && (p + 1 <=? b)) with true by lia. reflexivity.
-  - replace ((a <=? p) && (p + 2 <=? b)) with true by lia. reflexivity.
-Qed.
-
-(* ... a stretch that begins with a character of positive width at or right of a *)
-Lemma slice_ref_inside a b x cs p : str_ok wc (map fst (x :: cs)) -> zero_width wc x = false ->
-  a <= p -> p + wsum wc (x :: cs) <= b ->
-  slice_ref_from wc p a b (x :: cs) = x :: cs.
-Proof.
-  intros Hok Hx Hlo Hhi. cbn [map] in Hok. apply str_ok_cons in Hok as [Hx' Hok].
-  pose proof (wsum_nonneg wc cs Hok) as Hn. cbn [wsum] in Hhi. unfold zero_width in Hx.
-  rewrite slice_ref_from_cons, slice_ref_inside_strict by (assumption || destruct Hx' as [Hw|[Hw|Hw]]; lia).
-  unfold keep_char. cbn [fst snd].
-  destruct Hx' as [Hw|[Hw|Hw]]; rewrite Hw; cbn [Z.eqb Pos.eqb andb]; [lia| |].
-  - replace ((a <=? p) && (p + 1 <=? b)) with true by lia. reflexivity.
-  - replace ((a <=? p) && (p + 2 <=? b)) with true by lia. reflexivity.
-Qed.
-
-Lemma body_width_pos x r : str_ok wc (map fst (x :: r)) -> zero_width wc x = false -> 0 < wsum wc (x :: r).
-Proof.
-  intros Hok Hx. cbn [map] in Hok. apply str_ok_cons in Hok as [Hx' Hok].
-  pose proof (wsum_nonneg wc r Hok) as Hn. unfold zero_width in Hx. cbn [wsum].
-  destruct Hx' as [Hw|[Hw|Hw]]; lia.
-Qed.
-
-(* one iteration of the run walk, character by character *)
-Lemma walk_part_exact ch a b K :
-  str_ok wc (c_s ch) ->
-  cells (walk_part wc ch a b K (wsum wc (chunk_cells ch))) = run_ref wc a b K ch.
-Proof.
-  intro Hok. pose proof (str_ok_chunk_cells wc ch Hok) as Hok'.
-  pose proof (str_ok_body _ Hok') as Hokb.
-  unfold walk_part, run_ref. rewrite <- (span_marks_width (chunk_cells ch)).
-  pose proof (span_marks_app (chunk_cells ch)) as Happ.
-  pose proof (span_marks_body (chunk_cells ch)) as Hbody.
-  remember (fst (span_marks wc (chunk_cells ch))) as lead eqn:Hl.
-  remember (snd (span_marks wc (chunk_cells ch))) as body eqn:Hbd.
-  remember (wsum wc body) as w eqn:Hw.
-  destruct Hbody as [Hb|[x [r [Hb Hx]]]].
-  - (* a run of marks only (or empty): width 0 *)
-    rewrite Hb in *. cbn [wsum] in Hw. rewrite Hw in *. unfold lead_kept.
-    cbn [slice_ref_from positions flat_map]. rewrite app_nil_r in *.
-    destruct ((a <? K + 0) && (b >? K)) eqn:E.
-    + cbv zeta. replace (Z.min (b - K) 0 - Z.max 0 (a - K) =? 0) with true by lia.
-      replace ((a <? K) && (K <? b)) with true by lia.
-      cbn [cells flat_map]. rewrite app_nil_r. now symmetry.
-    + replace ((a <? K) && (K <? b)) with false by lia. reflexivity.
-  - (* a run with a body *)
-    rewrite Hb in *.
-    assert (Hwp : 0 < w) by (rewrite Hw; now apply body_width_pos).
-    unfold lead_kept. rewrite width_of_wsum, <- Hw.
-    destruct ((a <? K + w) && (b >? K)) eqn:E.
-    + cbv zeta. destruct (Z.min (b - K) w - Z.max 0 (a - K) =? w) eqn:E2.
-      * (* the whole run lies inside the range: reused as it is, leading marks included *)
-        replace ((a <=? K) && (K + w <=? b)) with true by lia.
-        cbn [cells flat_map]. rewrite app_nil_r, <- Happ. f_equal.
-        symmetry. apply slice_ref_inside; [assumption|assumption|lia|]. assert (Hle : K + w <= b) by lia. rewrite Hw in Hle. exact Hle.
-      * (* cut by the helper: leading marks dropped *)
-        replace ((a <=? K) && (K + w <=? b)) with false by lia.
-        cbn [cells flat_map app]. rewrite app_nil_r.
-        unfold chunk_cells at 1. cbn [c_s c_a].
-        fold (withst (eff (c_a ch)) (was_str wc (c_s ch) (Z.max 0 (a - K)) (b - K))).
-        unfold was_str. rewrite was_chars_body by assumption.
-        rewrite <- chunk_cells_withst, <- Hbd. reflexivity.
-    + (* no overlap *)
-      replace ((a <=? K) && (K + w <=? b)) with false by lia. cbn [cells flat_map app].
-      symmetry. destruct (a <? K + w) eqn:E1.
-      * apply slice_ref_right; [assumption|assumption|lia].
-      * apply slice_ref_left; [assumption|lia].
-Qed.
-
-Lemma run_ref_right ch a b K : str_ok wc (c_s ch) -> b < K -> run_ref wc a b K ch = [].
-Proof.
-  intros Hok H. pose proof (str_ok_chunk_cells wc ch Hok) as Hok'.
-  pose proof (str_ok_body _ Hok') as Hokb. pose proof (wsum_nonneg wc _ Hokb) as Hn.
-  unfold run_ref. rewrite slice_ref_right_strict by assumption. rewrite app_nil_r.
-  unfold lead_kept. rewrite width_of_wsum.
-  destruct (snd (span_marks wc (chunk_cells ch))).
-  - replace ((a <? K) && (K <? b)) with false by lia. reflexivity.
-  - replace ((a <=? K) && (K + wsum wc (c :: l) <=? b)) with false by lia. reflexivity.
-Qed.
-
-Lemma slice_ref_runs_right a b : forall f K, fs_ok wc f -> b < K -> slice_ref_runs_from wc K a b f = [].
-Proof.
-  induction f as [|ch f IH]; intros K Hok H; [reflexivity|].
-  apply fs_ok_cons in Hok as [Hc Hok]. cbn [slice_ref_runs_from].
-  rewrite run_ref_right by assumption. rewrite width_of_wsum.
-  pose proof (wsum_nonneg wc _ (str_ok_chunk_cells wc ch Hc)) as Hn.
-  apply IH; [assumption|lia].
-Qed.
-
-Lemma was_walk_exact a b : forall f K, fs_ok wc f ->
-  exists parts, was_walk wc f a b K = Ok parts /\ cells parts = slice_ref_runs_from wc K a b f.
-Proof.
-  induction f as [|ch f IH]; intros K Hok.
-  - exists []. split; reflexivity.
-  - apply fs_ok_cons in Hok as [Hc Hok].
-    rewrite was_walk_cons, chunk_width_ok by assumption. cbn [bind]. cbv zeta.
-    cbn [slice_ref_runs_from]. change (width_of wc (chunk_cells ch)) with (wsum wc (chunk_cells ch)).
-    destruct (b <? K + wsum wc (chunk_cells ch)) eqn:E.
-    + (* break: nothing of the remaining runs is kept *)
-      eexists. split; [reflexivity|].
-      rewrite walk_part_exact by assumption.
-      rewrite slice_ref_runs_right by (assumption || lia). now rewrite app_nil_r.
-    + destruct (IH (K + wsum wc (chunk_cells ch)) Hok) as [ps [Hps Hcol]].
-      rewrite Hps. cbn [bind]. eexists. split; [reflexivity|].
-      now rewrite cells_app, walk_part_exact, Hcol.
-Qed.
-
-(* main statement, character by character: the cells of the slice, zero-width
-   characters and formatting included, are those of the run-aware reference *)
-Theorem slice_cells_exact f a b :
-  fs_ok wc f -> 0 <= a -> 0 <= b ->
-  exists r, fs_was wc f (IxSlice (Some a) (Some b)) = Ok r /\
-            cells r = slice_ref_runs wc a b f.
-Proof.
-  intros Hok Ha Hb. unfold fs_was.
-  pose proof (fs_ok_cells wc f Hok) as Hok'.
-  rewrite <- map_fst_cells, wcswidth_cells by assumption.
-  pose proof (wsum_nonneg wc _ Hok') as Hn.
-  destruct (wsum wc (cells f) =? -1) eqn:E; [lia|].
-  rewrite fs_width_wsum by assumption. cbn [bind ws_normalize_slice].
-  replace (a <? 0) with false by lia. replace (b <? 0) with false by lia. cbn [fst snd].
-  destruct (was_walk_exact a b f 0 Hok) as [parts [Hw Hcells]].
-  rewrite Hw. cbn [bind]. unfold slice_ref_runs.
-  destruct parts as [|p ps].
-  - eexists. split; [reflexivity|]. rewrite <- Hcells. reflexivity.
-  - eexists. split; [reflexivity|]. exact Hcells.
-Qed.
-
-(* where no run begins with a zero-width character the run layout does not matter:
-   the slice is the layout-independent reference applied to the cells *)
-Lemma span_marks_no_lead cs :
-  match cs with [] => false | x :: _ => zero_width wc x end = false -> span_marks wc cs = ([], cs).
-Proof. destruct cs as [|x cs]; [reflexivity|]. cbn [span_marks]. now intros ->. Qed.
-
-Lemma run_ref_ideal a b K ch :
-  starts_with_mark wc ch = false -> run_ref wc a b K ch = slice_ref_from wc K a b (chunk_cells ch).
-Proof.
-  intro H. unfold run_ref. rewrite span_marks_no_lead by exact H. cbn [fst snd].
-  now destruct (lead_kept wc a b K (chunk_cells ch)).
-Qed.
-
-Lemma slice_ref_runs_ideal a b : forall f K, no_leading_marks wc f = true ->
-  slice_ref_runs_from wc K a b f = slice_ref_from wc K a b (cells f).
-Proof.
-  induction f as [|ch f IH]; intros K H; [reflexivity|].
-  cbn [no_leading_marks forallb] in H. apply andb_prop in H as [H1 H2].
-  cbn [slice_ref_runs_from]. rewrite cells_cons, slice_ref_from_app.
-  rewrite run_ref_ideal by (now destruct (starts_with_mark wc ch)).
-  f_equal. now apply IH.
-Qed.
-
-Theorem slice_cells_ideal f a b :
-  fs_ok wc f -> no_leading_marks wc f = true -> 0 <= a -> 0 <= b ->
-  exists r, fs_was wc f (IxSlice (Some a) (Some b)) = Ok r /\
-            cells r = slice_ref wc a b (cells f).
-Proof.
-  intros Hok Hl Ha Hb. destruct (slice_cells_exact f a b Hok Ha Hb) as [r [Hr Hc]].
-  exists r. split; [assumption|]. rewrite Hc. now apply slice_ref_runs_ideal.
-Qed.
-
-(* the zero-width characters strictly inside the range *)
-Lemma inner_marks_from_app x y p a b :
-  inner_marks_from wc p a b (x ++ y) =
-  inner_marks_from wc p a b x ++ inner_marks_from wc (p + wsum wc x) a b y.
-Proof. unfold inner_marks_from. now rewrite positions_app, filter_app, map_app. Qed.
-
-Lemma inner_marks_from_cons x cs p a b :
-  inner_marks_from wc p a b (x :: cs) =
-  (if inner_mark wc a b (p, x) then [x] else []) ++ inner_marks_from wc (p + wc (fst x)) a b cs.
-Proof.
-  unfold inner_marks_from. cbn [positions filter].
-  now destruct (inner_mark wc a b (p, x)).
-Qed.
-
-Lemma inner_marks_keep a b : forall cs p,
-  subseq (inner_marks_from wc p a b cs) (zw_cells wc (slice_ref_from wc p a b cs)).
-Proof.
-  induction cs as [|x cs IH]; intro p; [constructor|].
-  rewrite inner_marks_from_cons, slice_ref_from_cons, zw_cells_app.
-  apply subseq_app; [|apply IH].
-  unfold inner_mark, keep_char. cbn [fst snd].
-  destruct (zero_width wc x) eqn:Ez; cbn [andb]; [|apply subseq_nil_l].
-  unfold zero_width in Ez. rewrite Ez.
-  destruct ((a <? p) && (p <? b)) eqn:E; [|apply subseq_nil_l].
-  replace ((a <? p) && (p <=? b)) with true by lia.
-  cbn [zw_cells filter]. unfold zero_width. rewrite Ez. apply subseq_refl.
-Qed.
-
-Lemma span_marks_all cs : forallb (zero_width wc) cs = true -> span_marks wc cs = (cs, []).
-Proof.
-  induction cs as [|x cs IH]; intro H; [reflexivity|].
-  cbn [forallb] in H. apply andb_prop in H as [H1 H2].
-  cbn [span_marks]. rewrite H1, (IH H2). reflexivity.
-Qed.
-
-Lemma zw_cells_all cs : forallb (zero_width wc) cs = true -> zw_cells wc cs = cs.
-Proof.
-  induction cs as [|x cs IH]; intro H; [reflexivity|].
-  cbn [forallb] in H. apply andb_prop in H as [H1 H2].
-  cbn [zw_cells filter]. rewrite H1. f_equal. now apply IH.
-Qed.
-
-Lemma inner_marks_all a b K : forall cs, forallb (zero_width wc) cs = true ->
-  inner_marks_from wc K a b cs = if (a <? K) && (K <? b) then cs else [].
-Proof.
-  induction cs as [|x cs IH]; intro H; [now destruct ((a <? K) && (K <? b))|].
-  cbn [forallb] in H. apply andb_prop in H as [H1 H2].
-  rewrite inner_marks_from_cons. unfold inner_mark. cbn [fst snd]. rewrite H1.
-  unfold zero_width in H1. replace (K + wc (fst x)) with K by lia.
-  rewrite (IH H2). cbn [andb]. now destruct ((a <? K) && (K <? b)).
-Qed.
-
-Lemma run_keeps_inner_marks a b K ch :
-  negb (starts_with_mark wc ch) || forallb (zero_width wc) (chunk_cells ch) = true ->
-  subseq (inner_marks_from wc K a b (chunk_cells ch)) (zw_cells wc (run_ref wc a b K ch)).
-Proof.
-  intro H. destruct (forallb (zero_width wc) (chunk_cells ch)) eqn:Eall.
-  - (* a run of marks only: kept as a whole iff a < K < b *)
-    unfold run_ref. rewrite span_marks_all by assumption. cbn [fst snd lead_kept].
-    cbn [slice_ref_from positions flat_map]. rewrite app_nil_r, inner_marks_all by assumption.
-    destruct ((a <? K) && (K <? b)); [|constructor].
-    rewrite zw_cells_all by assumption. apply subseq_refl.
-  - rewrite orb_false_r in H. rewrite run_ref_ideal by (now destruct (starts_with_mark wc ch)).
-    apply inner_marks_keep.
-Qed.
-
-Lemma runs_keep_inner_marks a b : forall f K, marks_lead_only_mark_runs wc f = true ->
-  subseq (inner_marks_from wc K a b (cells f)) (zw_cells wc (slice_ref_runs_from wc K a b f)).
-Proof.
-  induction f as [|ch f IH]; intros K H; [constructor|].
-  cbn [marks_lead_only_mark_runs forallb] in H. apply andb_prop in H as [H1 H2].
-  cbn [slice_ref_runs_from]. rewrite cells_cons, inner_marks_from_app, zw_cells_app.
-  apply subseq_app; [now apply run_keeps_inner_marks|now apply IH].
-Qed.
-
-(* every zero-width character whose column lies strictly inside (a, b) is in the
-   slice, with its own formatting, in order - provided no run of positive width
-   begins with a zero-width character (runs made of zero-width characters only
-   are allowed) *)
-Theorem slice_keeps_inner_marks f a b :
-  fs_ok wc f -> marks_lead_only_mark_runs wc f = true -> 0 <= a -> 0 <= b ->
-  exists r, fs_was wc f (IxSlice (Some a) (Some b)) = Ok r /\
-            subseq (inner_marks wc a b (cells f)) (zw_cells wc (cells r)).
-Proof.
-  intros Hok Hl Ha Hb. destruct (slice_cells_exact f a b Hok Ha Hb) as [r [Hr Hc]].
-  exists r. split; [assumption|]. rewrite Hc. now apply runs_keep_inner_marks.
-Qed.
-
-End SliceCells.
+(* RECORD of the behaviour before the repository fix 3b8c3df ("width_aware_slice treats
+   combining characters by their column in the whole string, not by the chunk they
+   happen to start"), found while proving the statement above.  The old loop clamped the
+   helper's start offset to max(0, a - K), reused a run lying wholly inside the range
+   verbatim and skipped a run starting at column b, so the fate of the zero-width
+   characters standing at the very beginning of a run depended on the run layout:
+     a | grave b c   0..2 : the accent at column 1 (strictly inside) was DROPPED - its run
+                            is cut by the right edge and the helper took the run's local
+                            column 0 for the beginning of the slice;
+     a | grave b     1..2 : the accent at the start column was KEPT (whole run reused),
+                            while the single run  a grave b  1..2 dropped it;
+     a | grave       0..1 : the accent at the end column was DROPPED (its run starts at b
+                            and was skipped), while the single run  a grave  0..1 kept it.
+   These three inputs are the corpus file corpus/C10/fix-3b8c3df.json and are Examples
+   (with the results of the fixed code) in Props/C10.v. *)
